@@ -8,7 +8,7 @@ VERIF = Path(__file__).resolve().parents[1]
 # id -> (level, technique, level text, level note, design ref)
 WM = "deterministic whole-model simulation"
 CHECKS = {
-    "C01": ("exploration", WM + ": one-step refinement against named RK tableaux via the forcing's own velocity() under recording shims; convergence order on analytic plug-in worlds (dt, dt/2, dt/4 vs exact flow map); helper functions under a user time loop",
+    "C01": ("exploration", WM + ": one-step refinement against named RK tableaux fed with the forcing's own velocity() and with the ground-truth forcing, under recording shims; convergence order on analytic plug-in worlds (dt, dt/2, dt/4 vs exact flow map); helper functions under a user time loop",
             "Each seeded case runs the real tracker inside the stepping model and compares every step with the displacement the selected scheme prescribes, computed from the velocities the real forcing supplies at the stage positions and fractional times and the ground-truth spacing; order of accuracy is measured against exact flow maps. Sampling of fields, metrics, time steps and positions; no fault or schedule dimension exists for this property, the simulator contributes the stepping system, the clock-dependent stage times and the reference model.",
             "Trusts the exact flow maps of the analytic rotation/shear fields and numpy; order measured on three step sizes (shows 'not lower than'); steps ending on land/outside or with clipped stage positions are judged by C09/C17 instead.",
             "DESIGN.md section 6, C01"),
@@ -40,7 +40,7 @@ CHECKS = {
             "The fault (process death, durable state = completed files) is enumerated over every restart point of each seeded run and sampled over crash steps, stop choices and chains; equality with the uninterrupted run is checked record by record.",
             "Process death is emulated in-process (updates stop, handles dropped, completed files copied); diffusion off; a file is complete when its numrec-th record was written; one listed known finding (pid counter lost).",
             "DESIGN.md section 6, C08"),
-    "C09": ("exploration", WM + ": safety invariants after every tracker and IBM call on the scenario's own mask, decisions (kill / land cancel / move) against a reference move, record histories; seeded RNG seam for diffusion",
+    "C09": ("exploration", WM + ": safety invariants after every tracker and IBM call on the scenario's own mask, decisions (kill / land cancel / move) against a reference move, record histories, cold and warm start; seeded RNG seam for diffusion",
             "After every event of every run each living particle must be finite, inside and in water, and each decision of the tracker is compared with the reference move (unanimous over the named tableaux); coastlines, strong flows, schemes and diffusion are sampled with probes for land cancels, kills, inactivity and clipped stages.",
             "Targets within 1e-6 of a border or cell edge are not judged; death of an inactive particle at the border is left open as in the statement.",
             "DESIGN.md section 6, C09"),
@@ -48,7 +48,7 @@ CHECKS = {
             "A relation between two executions of the real model: record for record the same pids and positions, plus the reversed clock at every step. Sampling over layouts, release tables and schemes.",
             "Scalar forcing left out of the pair comparison (values identify frames); tolerance 1e-6 cells.",
             "DESIGN.md section 6, C10"),
-    "C11": ("exploration", WM + " with a seeded randomness seam: injected numpy Generator, clouds of 2e4..1e6 particles in an analytic still-water plug-in world, moment / covariance / independence statistics at 6.5 standard errors, bit-identity across seeds at zero coefficients",
+    "C11": ("exploration", WM + " with a seeded randomness seam: injected numpy Generator, clouds of 2e4..1e6 particles in an analytic still-water plug-in world, moment / covariance / independence statistics at 6.5 standard errors, bit-identity across seeds at zero coefficients, continuation after a warm start from 32-bit positions",
             "The randomness source is owned by the simulator (one integer decides every draw), the statement is distributional; each seeded parameter setting is judged per step and cumulatively with wide deterministic bands. Sampling over D, Dz, dt, dx, dy over several decades.",
             "Bands of 6.5 standard errors; normality not tested; analytic plug-in grid/forcing are stubs.",
             "DESIGN.md section 6, C11"),
